@@ -1281,6 +1281,14 @@ Hread(int32 access_id, int32 length, void *data)
     if (HTPinquire(access_rec->ddid, NULL, NULL, &data_off, &data_len) == FAIL)
         HGOTO_ERROR(DFE_INTERNAL, FAIL);
 
+    /* space reserved while caching is only added to the file at the next flush; do that now,
+       so that reading reserved but not yet written bytes gives zeros instead of failing */
+    if (file_rec->cache && (file_rec->dirty & FILE_END_DIRTY)) {
+        if (HIextend_file(file_rec) == FAIL)
+            HGOTO_ERROR(DFE_WRITEERROR, FAIL);
+        file_rec->dirty &= ~FILE_END_DIRTY;
+    }
+
     /* seek to position to start reading and read in data */
     if (HPseek(file_rec, access_rec->posn + data_off) == FAIL)
         HGOTO_ERROR(DFE_SEEKERROR, FAIL);
